@@ -166,6 +166,20 @@ pub fn run(ctx: &Ctx) -> Outcome {
             out.absorb(r);
         }
     }
+    if !out.failed() && ctx.tier == Tier::Thorough {
+        let fr = libfuzzer(ctx, "parse_text", 2_000_000, 512, 8);
+        out.extra.insert("libfuzzer_parse_text_runs".into(), json!(fr.runs));
+        if let Some(s) = fr.skipped {
+            out.extra.insert("libfuzzer_skipped".into(), json!(s));
+        }
+        out.stats.evaluations += fr.runs;
+        if let Some(bytes) = fr.crash {
+            let input = String::from_utf8_lossy(&bytes).to_string();
+            if let Err(m) = oracle(&input) {
+                out.failure = Some(Failure { case: json!({"input": input}), message: format!("(libFuzzer) {m}"), description: json!({"input": input}) });
+            }
+        }
+    }
     out.essential = ["gen:soup", "gen:mutated-program", "gen:targeted", "gen:proptest-string", "parsed", "rejected", "has-backslash", "has-non-ascii"].iter().map(|s| s.to_string()).collect();
     out
 }
